@@ -18,3 +18,4 @@ extern "C" __attribute__((noinline)) bool fsv_pool_was_empty(fs::thread_pool<siz
 extern "C" __attribute__((noinline)) void fsv_pool_run_tasks(fs::thread_pool<size_t>* pool) { pool->run_tasks(); }
 extern "C" __attribute__((noinline)) void fsv_pool_pause(fs::thread_pool<size_t>* pool) { pool->pause(); }
 extern "C" __attribute__((noinline)) void fsv_pool_resume(fs::thread_pool<size_t>* pool) { pool->resume(); }
+extern "C" __attribute__((noinline)) fs::thread_pool<size_t>* fsv_pool_make(size_t n) { return new fs::thread_pool<size_t>(n); }
